@@ -1123,10 +1123,16 @@ func part2(run *vlib.Run, bt *built) bool {
 	t0 := time.Now()
 	deadline := 70 * time.Second
 	if run.Thorough() {
-		deadline = 11 * time.Minute
+		deadline = 11*time.Minute + 30*time.Second
 	}
 	var progs []*semProg
 	var planDescr []string
+	for _, x := range rejectedExprs {
+		for _, rs := range []int{8, 16} {
+			body := []*stmt{{text: "a = " + x, kind: "assign"}, {text: "bondgo.IOWrite(o0, a)", kind: "write"}}
+			progs = append(progs, &semProg{Rsize: rs, Size: 2, Alpha: "rejected-operators", Source: sourceOf(body, rs), Expect: "rejected"})
+		}
+	}
 	for _, pl := range semPlans(run.Thorough()) {
 		en := newEnumerator(pl.Alpha)
 		for _, n := range pl.Sizes {
@@ -1135,12 +1141,6 @@ func part2(run *vlib.Run, bt *built) bool {
 			for _, body := range bodies {
 				progs = append(progs, &semProg{Rsize: pl.Rsize, Size: n, Alpha: pl.Alpha.Name, Source: sourceOf(body, pl.Rsize), Expect: "accepted"})
 			}
-		}
-	}
-	for _, x := range rejectedExprs {
-		for _, rs := range []int{8, 16} {
-			body := []*stmt{{text: "a = " + x, kind: "assign"}, {text: "bondgo.IOWrite(o0, a)", kind: "write"}}
-			progs = append(progs, &semProg{Rsize: rs, Size: 2, Alpha: "rejected-operators", Source: sourceOf(body, rs), Expect: "rejected"})
 		}
 	}
 	if *semCount {
@@ -1273,6 +1273,7 @@ func part2(run *vlib.Run, bt *built) bool {
 	run.Set("part2_compared_ok", counts["ok"])
 	run.Set("part2_distinct_output_traces", len(distinct))
 	run.Set("part2_enumeration", planDescr)
+	run.Set("part2_bounds", "all canonical programs (last statement writes an output; no assignment that is immediately overwritten) with exactly `size` statements (nested ones counted) over the named statement alphabet: variables a (memory) and reg_b (register) of type uintN, assignments of constants / the other variable / + / * / bondgo.IORead / a function call, ++/--, bondgo.IOWrite to one or two outputs, if / if-else with == conditions, two bounded for loops; plus one program per binary operator the compiler refuses (- & | ^ / <<)")
 	run.Set("part2_wall_s", time.Since(t0).Seconds())
 	if capHit {
 		run.Set("part2_cap_hit", fmt.Sprintf("deadline %v: %d of %d programs done", deadline, done, len(progs)))
